@@ -64,6 +64,32 @@ async def _impl_case(framing, max_size, chunks, mode):
     return out
 
 
+async def _cancel_probe(framing):
+    """Informational only (the property text does not speak about cancellation): `ab` arrives,
+    the waiting receive_message() is cancelled, a new call is made, `c\\n` arrives.  Returns what
+    the second call delivered."""
+    fr = framing.NewlineFramer(0)
+    t = asyncio.ensure_future(fr.receive_message())
+    fr.received_bytes(b'ab')
+    await asyncio.sleep(1e-6)
+    t.cancel()
+    try:
+        await t
+    except asyncio.CancelledError:
+        pass
+    t = asyncio.ensure_future(fr.receive_message())
+    fr.received_bytes(b'c\n')
+    await asyncio.sleep(1e-6)
+    if t.done() and not t.cancelled() and t.exception() is None:
+        return bytes(t.result())
+    t.cancel()
+    try:
+        await t
+    except BaseException:
+        pass
+    return None
+
+
 def _fmt_out(out):
     if not out:
         return '.'
@@ -275,6 +301,13 @@ def run(ctx):
             res.violation('c06:frame', {'message': m.hex()}, 'frame(m) is not m + newline',
                           impl=framed.hex())
     res['scopes']['frame_calls'] = 300
+    # cancellation: outside the property (assumption in props/C06.json); recorded, not judged
+    try:
+        got = vloop.run(_cancel_probe(_framing))
+        res.count('cancel_probe_truncated' if got == b'c' else
+                  ('cancel_probe_whole' if got == b'abc' else 'cancel_probe_other'))
+    except Exception:      # noqa
+        res.count('cancel_probe_failed')
     # (b) generated
     ngen = (400000 if ctx.tier == 'thorough' else 60000) if ctx.deep else 5000
     gen = [random_case(rng) for _ in range(ngen)]
